@@ -100,3 +100,24 @@ CHECKS['C20'] = {
             'instant from inside an event or between two simulate calls whose observations must equal those of a twin created before the '
             'start, shifted by the creation instant.',
 }
+
+CHECKS.update({
+    'C04': {'harnesses': ['harness.line_jobs'],
+            'text': _LINE + 'for every listed station-kind assignment, capacity and zero pattern the recorded entry instants of every part at '
+                    'every station are compared with the blocking-after-service recurrence D(j,k) built as z3 max-terms over the symbolic '
+                    'cycle times and delays; equality must be valid on every path, i.e. for every tie-break order.'},
+    'C11': {'harnesses': ['harness.line_jobs'],
+            'text': _LINE + 'after every event a processor with a part in process must hold exactly its declared amounts, each pool usage must '
+                    'equal the sum of the declarations of the holders (plus external holders), a failed processor holds nothing, a processor in '
+                    'maintenance with a part keeps its resources, and when time advances no idle operational processor holds any.'},
+    'C15': {'harnesses': ['harness.line_jobs'],
+            'text': _LINE + 'after every event the last level / resource_update records equal the live state, record counts equal the occurrences '
+                    'observed through callbacks and state transitions (received, produced, supplied, failure, work orders), records carry the '
+                    'current time and the part id/quality/value of that moment, device counters equal record counts, and an enabled trace '
+                    '(file export stubbed) lists exactly the dispatched events in order, exported once per run.'},
+    'C16': {'harnesses': ['harness.line_jobs'],
+            'text': _LINE + 'with symbolic part values, processing value changes and work-order costs: after every event each asset value equals '
+                    'its starting value plus its history, entries are (label, now, non-zero delta, running total), source value = -sum of '
+                    'supplied values, sink value = sum of values at receipt, maintainer value drops by started-order costs, batch = sum of '
+                    'parts, net value = sum over registered assets.'},
+})
